@@ -1189,3 +1189,15 @@ def c14_13(ctx: Ctx) -> RuleResult:
         i.rule = "C14.13"
     r.rule, r.title = "C14.13", "function evaluations stay within the budget: a function result already computed for the current point is kept (also after tolerated failures) and never evaluated again"
     return r
+
+
+@rule(P)
+def c14_14(ctx: Ctx) -> RuleResult:
+    """Shared with C15.5: a nested optimization without a result ends the step with a documented exit code."""
+    from .c15 import c15_5
+
+    r = c15_5(ctx)
+    for i in r.instances:
+        i.rule = "C14.14"
+    r.rule, r.title = "C14.14", "a nested optimization that yields no result ends the step with NESTED_OPTIMIZER_FAILED / USER_ABORT, never with an internal exception"
+    return r
